@@ -420,3 +420,37 @@ func c16RestorePrior(c *Ctx, r *R) {
 		}
 	}
 }
+
+func init() {
+	reg(&eng.Rule{ID: "C16.reset-primitive", Prop: "C16", Floor: 3,
+		Doc: "The compensating primitive does what its callers rely on: every return of (*Repository).ResetDueToError lies behind an unconditional SetReference(refName, commitID) with its own parameters (a force reset — no precondition on the target), and the error it returns is never nil (it is the cause, possibly wrapped).",
+		Run: c16ResetPrimitive})
+}
+
+func c16ResetPrimitive(c *Ctx, r *R) {
+	fn := r.Fn("(*pkg/gitinterface.Repository).ResetDueToError")
+	if fn == nil {
+		return
+	}
+	r.Site(1)
+	var sets []Call
+	for _, k := range eng.Calls(fn, false) {
+		if k.Method() == "SetReference" {
+			sets = append(sets, k)
+		}
+	}
+	sk, ok := oneCall(r, "reset-call", fn, sets, "SetReference")
+	if !ok {
+		return
+	}
+	r.Check(eng.PParam("refName")(sk.Arg(0)) && eng.PParam("commitID")(sk.Arg(1)), "reset-args", sk.Pos(), "SetReference(refName, commitID)", "the reset does not set the given reference to the given commit")
+	isRet := func(in ssa.Instruction) bool { _, ok := in.(*ssa.Return); return ok }
+	mustPass(c, r, "reset-unconditional", fn, isRet, eng.NewCut().AddInstrs(sk.Instr), "every return lies behind the reset", "ResetDueToError can return without having attempted the reset (a precondition was put in front of it): callers that moved the reference sideways are left with it moved")
+	okE := true
+	for _, ret := range eng.Returns(fn) {
+		if eng.ClassifyErr(eng.RetErr(ret), ret.Block()) == eng.ErrNil {
+			okE = false
+		}
+	}
+	r.Check(okE, "never-nil", fn.Pos(), "the cause is always reported", "ResetDueToError can return nil: the failed operation would be reported as successful")
+}
